@@ -10,4 +10,4 @@ rsync -a --exclude .git --exclude '__pycache__' --exclude '.pytest_cache' /repo/
 if [ -n "$SUITE" ]; then
   ( cd "$D" && PYTHONPATH="$D/src" /venv/bin/python -m pytest -p no:cacheprovider --timeout=900 -q -x 2>&1 | tail -3 )
 fi
-cd /verif && HGMON_REPO="$D" ./check "$PROP" "$TIER" 2>&1 | grep -E "VIOLATION|KNOWN|INCONCLUSIVE|held|violated|key=" | head -${LINES_MAX:-12}
+cd /verif && HGMON_NO_EVIDENCE=1 HGMON_REPO="$D" ./check "$PROP" "$TIER" 2>&1 | grep -E "VIOLATION|KNOWN|INCONCLUSIVE|held|violated|key=" | head -${LINES_MAX:-12}
